@@ -143,7 +143,10 @@ class Model:
     now = 0.0
 
     def _maybe_uncertain(self, e):
-        if self.window and abs(e["t"] - self.now) < self.window:
+        # real-time engine: the timer was started somewhere between the moment the command was sent
+        # (e["t"]) and the moment the harness saw it settled (e["t_hi"]); unless it is certainly still
+        # in the future, whether it fired before this cancel/stop is not known
+        if self.window and e["t"] - self.now < self.window:
             e["uncertain"] = True
 
     def live(self):
@@ -265,6 +268,7 @@ class Driver:
         self.sendc = 0
         self.bad = None
         self.now = 0.0
+        self.t_send = 0.0       # when the current command was handed to the engine
         self.scale = 1          # real-time engine stretches the delays
         self.margin = 0.0       # real-time engine: a send counts as due only this long after its time
         self.warned = 0
@@ -431,7 +435,8 @@ class Driver:
                         if e["sender"] is a and e["sendId"] == sid and e["live"] and not e.get("done"):
                             e["live"] = False          # a reused send id supersedes the earlier send
                             m._maybe_uncertain(e)
-                m.timed.append({"t": self.now + delay * self.scale / 1e3, "target": tgt, "k": k, "sender": a,
+                m.timed.append({"t": self.t_send + delay * self.scale / 1e3,
+                                "t_hi": self.now + delay * self.scale / 1e3, "target": tgt, "k": k, "sender": a,
                                 "sendId": sid, "live": True, "etype": etype})
                 return ("scheduled", tgt)
             return a, kind, payload, upd
@@ -449,7 +454,8 @@ class Driver:
                     if a.parent.alive:
                         m.expected.append((a.parent, k, "MSG"))
                 else:
-                    m.timed.append({"t": self.now + delay * self.scale / 1e3, "target": a.parent, "k": k, "sender": a,
+                    m.timed.append({"t": self.t_send + delay * self.scale / 1e3,
+                                    "t_hi": self.now + delay * self.scale / 1e3, "target": a.parent, "k": k, "sender": a,
                                     "sendId": None, "live": True, "etype": "MSG"})
                 return ("sent", a.parent)
             return a, "SENDPARENT", payload, upd
@@ -577,7 +583,9 @@ class Driver:
             if e.get("delivered_ok") and not e.get("uncertain") and e["etype"] == "MSG" and e["k"] in pos:
                 per.setdefault(id(e["target"]), []).append(e)
         gap = max(self.margin, 1e-6)
-        for lst in per.values():
+        # (sync engine: every delayed send sleeps on a thread of its own, two of them are ordered by
+        #  the operating system's scheduler only - judged in virtual time, i.e. on the async engine)
+        for lst in (per.values() if self.engine == "async" else ()):
             lst.sort(key=lambda e: e["t"])
             for e1, e2 in zip(lst, lst[1:]):
                 if e2["t"] - e1["t"] > gap:
@@ -604,7 +612,7 @@ class Driver:
         """model: deliver delayed sends whose time has come"""
         m = self.model
         for e in m.timed:
-            if e["live"] and not e.get("done") and e["t"] <= self.now - self.margin + 1e-9:
+            if e["live"] and not e.get("done") and e.get("t_hi", e["t"]) <= self.now - self.margin + 1e-9:
                 e["done"] = True
                 if e["sender"].alive and e["target"].alive:
                     if not e.get("uncertain"):
@@ -663,6 +671,7 @@ def run_async(res, script, rng, idx):
                 if "exec" in payload:
                     payload["exec"] = id(a.real)
                 w0 = cap.count(logging.WARNING)
+                D.t_send = D.now
                 await a.real.send(Event(type=etype, payload=payload))
                 await _settle_async(D)
                 out = upd()
@@ -805,6 +814,7 @@ def run_sync(res, script, rng, idx):
                 if "exec" in payload:
                     payload["exec"] = id(a.real)
                 w0 = cap.count(logging.WARNING)
+                D.t_send = clock()
                 a.real.send(Event(type=etype, payload=payload))
                 settle()
                 D.now = clock()
@@ -875,6 +885,48 @@ def _finish(res, D):
                       case={"idx": D.idx})
 
 
+def finish_then_stop_race(res, trial):
+    """Sync engine: an inner actor with many children completes on its own (its actor thread then
+    stops it and them) at about the moment the root is stopped from the caller's thread.  Whoever
+    wins, nothing below the root may run once the root's stop() has returned."""
+    log, holder = [], {"targets": {}, "interps": {}}
+    t0 = time.monotonic()
+    machine = build_node(log, lambda: time.monotonic() - t0, holder, tick_ms=5)
+    root = SyncInterpreter(machine).start()
+    try:
+        root.send(Event(type="SPAWN", payload={"id": "k1", "systemId": None, "input": None}))
+        t1 = time.time()
+        while time.time() - t1 < 2.0 and not [a for a in root._actors.values() if a.status == "running"]:
+            time.sleep(0.002)
+        kids = list(root._actors.values())
+        if not kids:
+            res.count("finish-race.not-set-up")
+            return
+        k1 = kids[0]
+        for i in range(16):
+            k1.send(Event(type="SPAWN", payload={"id": "g%d" % i, "systemId": None, "input": None}))
+        time.sleep(0.05)
+        k1.send(Event(type="FINISH", payload={}))
+        time.sleep(0.0007 * (trial % 18))
+        root.stop()
+        n0 = len(log)
+        t1 = time.time()
+        while observe.engine_threads() and time.time() - t1 < 6.0:
+            time.sleep(0.004)
+        time.sleep(0.03)
+        res.evaluations += 1
+        res.count("finish-race.trials")
+        res.hashes.add(h(["finish-race", trial]))
+        if len(log) != n0:
+            res.violation("C15:activity-after-root-stop/finishing-child-race/sync",
+                          "after the root's stop() returned: %s" % ([(r[1], r[2]) for r in log[n0:]][:3],),
+                          {"trial": trial, "children_of_the_finishing_actor": 16})
+    finally:
+        for it in list(holder["interps"].values()):
+            if it.status != "stopped":
+                it.stop()
+
+
 def run_chunk(spec):
     observe.quiet_logs()
     res = Result()
@@ -893,6 +945,9 @@ def run_chunk(spec):
         wd.arm("sync %d" % idx)
         rng = rng_for(spec["seed"], ID, ci, idx, "s")
         run_sync(res, gen_script(rng, rng.randint(8, 20)), rng, idx)
+    for t in range(3 if tier == "quick" else 40):
+        wd.arm("finish race %d" % t)
+        finish_then_stop_race(res, ci * 1000 + t)
     wd.disarm()
     return res.to_json()
 
@@ -901,7 +956,7 @@ def quota(counters, tier):
     out = []
     for k in ("scripts.async", "scripts.sync", "commands.SPAWN", "commands.SENDTO",
               "commands.STOPCHILD", "commands.CANCEL", "commands.FWDMSG", "commands.SENDPARENT",
-              "commands.ESC", "deliveries.expected", "drops.expected", "teardowns"):
+              "commands.ESC", "deliveries.expected", "drops.expected", "teardowns", "finish-race.trials"):
         if counters.get(k, 0) == 0:
             out.append("monitor-never-reached:" + k)
     return out
